@@ -341,3 +341,32 @@ package route
 //@   loop 1 invariant wfTable(t)
 //@   loop 1 invariant targetsOK(t)
 //@   loop 1 invariant target == nil
+//@
+//@ // ---- C14 / C02: the route command parser ------------------------------------------------------------------
+//@ // accepts(text): fabio's own parser takes the text (definition: Parse returns no error on it; Parse reads
+//@ // nothing but its argument and the package's compiled expressions, which are never reassigned)
+//@ spec fun accepts(text string) bool
+//@
+//@ func Parse
+//@   trusted
+//@   requires in != nil
+//@   assigns bufOf
+//@   ensures (err == nil) == accepts(old(bufOf[in]))
+//@   ensures forall x *bytes.Buffer :: x != in ==> bufOf[x] == old(bufOf[x])
+//@
+//@ // ---- C14 / C05: what the option string of a command denotes ---------------------------------------------------
+//@ // one option word k=v is cut at its FIRST '=': the value may itself contain '='; a word without '=' is a key with an empty value
+//@ spec fun optKey(f string) string = indexByte(f, '=') < 0 ? f : f[:indexByte(f, '=')]
+//@ spec fun optVal(f string) string = indexByte(f, '=') < 0 ? "" : f[indexByte(f, '=')+1:]
+//@
+//@ func parseOpts
+//@   props C14 C05
+//@   assigns nothing
+//@   ensures nopanic
+//@   ensures s == "" ==> result == nil
+//@   ensures s != "" ==> result != nil && fresh(result)
+//@   loop 1 invariant m != nil && fresh(m)
+//@   // every option word is recorded under its key, and every recorded value is the value of one of the words
+//@   loop 1 invariant forall j int :: 0 <= j && j <= rangeindex ==> hasKey(m, optKey(rangeover[j]))
+//@   loop 1 invariant forall k string :: hasKey(m, k) ==> exists j int :: 0 <= j && j <= rangeindex && optKey(rangeover[j]) == k && m[k] == optVal(rangeover[j])
+//@   loop 1 iteration ensures hasKey(m, optKey(rangeover[rangeindex])) && m[optKey(rangeover[rangeindex])] == optVal(rangeover[rangeindex])
